@@ -23,8 +23,9 @@ SHAPES = ['Q op x', 'x op Q', 'Q op Q same unit', 'Q op Q other unit', 'Q op Q u
           'Q(unit) op Q(no unit)']
 # the same unit on an operand that did not come straight from the constructor (comparisons and + - only: cheap, and enough to
 # reach the unit check)
-LATE_SHAPES = ['Q op pickled Q', 'Q op deep-copied Q', 'Q op Q whose unit was assigned later']
+LATE_SHAPES = ['Q op pickled Q', 'Q op deep-copied Q', 'Q op shallow-copied Q', 'Q op Q whose unit was assigned later']
 UNITS = ['kg', None, '%', u'°C']
+PINT_UNITS = ['kg', None, u'°C', 'kW']          # units the Pint registry knows (Pint mode refuses the others at construction)
 
 
 def too_big(name, a, b):
@@ -66,6 +67,17 @@ def same_outcome(exp, got):
     return same(exp[1], got[1])
 
 
+_PINT = False      # which Quantity class the current task explores (set by _task; read where cases are named)
+
+
+def _mode(d):
+    """Tag a signature / case dict with the Quantity mode (only when it is not the default, so older signatures stay as they were)."""
+    if _PINT:
+        d = dict(d)
+        d['pint'] = True
+    return d
+
+
 def kind(o):
     return o[1] if o[0] == 'raise' else type(o[1]).__name__
 
@@ -79,17 +91,26 @@ def one(Q, name, op, a, b, shape, unit, st, is_cmp):
         x, y, units_differ = Q(a, unit), Q(b, unit), False
     elif shape == 'Q op Q unitless both':
         x, y, units_differ = Q(a, None), Q(b, None), False
-    elif shape in ('Q op pickled Q', 'Q op deep-copied Q', 'Q op Q whose unit was assigned later'):
+    elif shape in LATE_SHAPES:
         import copy
         import pickle
         x, units_differ = Q(a, unit), False
-        if shape == 'Q op pickled Q':
-            y = pickle.loads(pickle.dumps(Q(b, unit)))
-        elif shape == 'Q op deep-copied Q':
-            y = copy.deepcopy(Q(b, unit))
+        if shape in ('Q op pickled Q', 'Q op deep-copied Q', 'Q op shallow-copied Q'):
+            mk = {'Q op pickled Q': lambda q: pickle.loads(pickle.dumps(q)), 'Q op deep-copied Q': copy.deepcopy,
+                  'Q op shallow-copied Q': copy.copy}[shape]
+            try:
+                y = mk(Q(b, unit))
+            except Exception as e:      # a Quantity that cannot be copied: reported as the outcome of the expression
+                st.count('executions')
+                st.case((name, repr(a), repr(b), shape, unit, _PINT), outcome=('copy-raises', False))
+                st.fail('quantity-not-transparent', _mode({'op': 'copy', 'shape': shape, 'expected': 'a copy', 'observed': type(e).__name__}),
+                        _mode({'kind': 'bin', 'op': name, 'a': repr(a), 'b': repr(b), 'shape': shape, 'unit': unit}),
+                        {'expr': '%s of Quantity(%r, %r)' % (shape, b, unit), 'observed': repr(e)[:200]})
+                return
         else:
-            y = Q(b, 'tmp')
-            y.unit = None if unit is None else ''.join(list(unit))      # an equal string that is another object
+            y = Q(b, 's')
+            # an equal unit that is another object (the unit as the library itself stores it: Pint mode keeps '' for "no unit")
+            y.unit = ''.join(list(x.unit)) if isinstance(x.unit, str) and x.unit else x.unit
     elif shape == 'Q op the same Q object':
         x = Q(a, unit)
         y, units_differ = x, False
@@ -104,10 +125,10 @@ def one(Q, name, op, a, b, shape, unit, st, is_cmp):
     got = ev(op, x, y)
     st.count('executions')
     ok = same_outcome(exp, got)
-    st.case((name, repr(a), repr(b), shape, unit), outcome=(kind(exp), ok))
+    st.case((name, repr(a), repr(b), shape, unit, _PINT), outcome=(kind(exp), ok))
     if not ok:
-        st.fail('quantity-not-transparent', {'op': name, 'shape': shape, 'expected': kind(exp), 'observed': kind(got)},
-                {'kind': 'bin', 'op': name, 'a': repr(a), 'b': repr(b), 'shape': shape, 'unit': unit},
+        st.fail('quantity-not-transparent', _mode({'op': name, 'shape': shape, 'expected': kind(exp), 'observed': kind(got)}),
+                _mode({'kind': 'bin', 'op': name, 'a': repr(a), 'b': repr(b), 'shape': shape, 'unit': unit}),
                 {'expr': '%s: %r %s %r' % (shape, a, name, b), 'expected': repr(exp), 'observed': repr(got)})
 
 
@@ -116,10 +137,33 @@ def _first_pair_of(a, pairs):
     return True
 
 
-def task(pairs, units):
+def task(pairs, units, pint=False):
+    """pint=True: the same space with hszinc switched to its Pint-backed Quantity class (use_pint); the switch is process-wide, so it
+    is put back before the worker takes its next task."""
+    import hszinc as hs
+    if pint:
+        hs.use_pint(True)
+        try:
+            if type(hs.Quantity(1, 'kg')).__name__ != 'PintQuantity':
+                raise HarnessError('use_pint(True) did not switch the Quantity class')
+            return _task(pairs, units, True)
+        finally:
+            hs.use_pint(False)
+    return _task(pairs, units, False)
+
+
+def _task(pairs, units, pint):
     import hszinc as hs
     Q = hs.Quantity
     st = Stats()
+    global _PINT
+    _PINT = pint
+    if pint:
+        n = len(pairs)
+        # Pint itself refuses a bool magnitude at construction (TypeError from pint, before any hszinc operator runs)
+        pairs = [(a, b) for a, b in pairs if type(a) is not bool and type(b) is not bool]
+        for _ in range(n - len(pairs)):
+            st.skip('pint mode: pint refuses a bool magnitude at construction')
     for a, b in pairs:
         for unit in units:
             for name, op in BINOPS:
@@ -152,10 +196,10 @@ def task(pairs, units):
                     got2 = ev(pow, Q(a, unit), Q(b, unit), m)
                     st.count('executions', 2)
                     for g, sh in ((got, 'pow3 Q,x,m'), (got2, 'pow3 Q,Q,m')):
-                        st.case(('pow3', repr(a), repr(b), m, sh, unit), outcome=(kind(exp), same_outcome(exp, g)))
+                        st.case(('pow3', repr(a), repr(b), m, sh, unit, _PINT), outcome=(kind(exp), same_outcome(exp, g)))
                         if not same_outcome(exp, g):
-                            st.fail('quantity-not-transparent', {'op': 'pow3', 'shape': sh, 'expected': kind(exp), 'observed': kind(g)},
-                                    {'kind': 'pow3', 'a': repr(a), 'b': repr(b), 'm': m, 'unit': unit},
+                            st.fail('quantity-not-transparent', _mode({'op': 'pow3', 'shape': sh, 'expected': kind(exp), 'observed': kind(g)}),
+                                    _mode({'kind': 'pow3', 'a': repr(a), 'b': repr(b), 'm': m, 'unit': unit}),
                                     {'expr': 'pow(Q(%r),%r,%r)' % (a, b, m), 'expected': repr(exp), 'observed': repr(g)})
     # operands of the other numeric types of the standard library (exact rationals, decimals, complex): the plain operand only
     import fractions
@@ -176,10 +220,10 @@ def task(pairs, units):
                         got = ev(op, l, r)
                         st.count('executions')
                         ok = same_outcome(exp, got)
-                        st.case((name, repr(a), repr(x), shape, unit), outcome=(kind(exp), ok))
+                        st.case((name, repr(a), repr(x), shape, unit, _PINT), outcome=(kind(exp), ok))
                         if not ok:
-                            st.fail('quantity-not-transparent', {'op': name, 'shape': shape + ' (' + type(x).__name__ + ')', 'expected': kind(exp), 'observed': kind(got)},
-                                    {'kind': 'other', 'op': name, 'a': repr(a), 'x': repr(x), 'shape': shape, 'unit': unit},
+                            st.fail('quantity-not-transparent', _mode({'op': name, 'shape': shape + ' (' + type(x).__name__ + ')', 'expected': kind(exp), 'observed': kind(got)}),
+                                    _mode({'kind': 'other', 'op': name, 'a': repr(a), 'x': repr(x), 'shape': shape, 'unit': unit}),
                                     {'expr': '%s: %r %s %r' % (shape, a, name, x), 'expected': repr(exp), 'observed': repr(got)})
     if pairs:
         a, b = pairs[0]
@@ -187,17 +231,33 @@ def task(pairs, units):
     return st
 
 
-def unary(units, st):
+def unary(units, st, pint=False):
     import hszinc as hs
+    global _PINT
+    if pint:
+        hs.use_pint(True)
+    _PINT = pint
+    try:
+        _unary(hs, units, st)
+    finally:
+        _PINT = False
+        if pint:
+            hs.use_pint(False)
+
+
+def _unary(hs, units, st):
     for a in OPERANDS:
+        if _PINT and type(a) is bool:
+            st.skip('pint mode: pint refuses a bool magnitude at construction')
+            continue
         for unit in units:
             for name, op in UNOPS:
                 exp, got = ev(op, a), ev(op, hs.Quantity(a, unit))
                 st.count('executions')
-                st.case((name, repr(a), unit), outcome=(kind(exp), same_outcome(exp, got)))
+                st.case((name, repr(a), unit, _PINT), outcome=(kind(exp), same_outcome(exp, got)))
                 if not same_outcome(exp, got):
-                    st.fail('quantity-not-transparent', {'op': name, 'shape': 'unary', 'expected': kind(exp), 'observed': kind(got)},
-                            {'kind': 'un', 'op': name, 'a': repr(a), 'unit': unit},
+                    st.fail('quantity-not-transparent', _mode({'op': name, 'shape': 'unary', 'expected': kind(exp), 'observed': kind(got)}),
+                            _mode({'kind': 'un', 'op': name, 'a': repr(a), 'unit': unit}),
                             {'expr': '%s(Q(%r))' % (name, a), 'expected': repr(exp), 'observed': repr(got)})
 
 
@@ -209,23 +269,52 @@ def run(ctx):
     for part in pmap(task, [(c, units) for c in chunks(pairs, ctx.jobs * 2)], ctx.jobs):
         st.merge(part)
     unary(units, st)
+    basic_exec = st.c['executions']
+    # the same space once more on the library's other Quantity class (hszinc.use_pint): units Pint knows
+    import hszinc as hs
+    pint_units = []
+    if getattr(hs, 'PINT_AVAILABLE', False):
+        pint_units = PINT_UNITS[:2] if ctx.quick else PINT_UNITS
+        for part in pmap(task, [(c, pint_units, True) for c in chunks(pairs, ctx.jobs * 2)], ctx.jobs):
+            st.merge(part)
+        unary(pint_units, st, True)
+        if type(hs.Quantity(1, 'kg')).__name__ != 'BasicQuantity':
+            raise HarnessError('the Quantity mode was not put back after the Pint sub-space')
+    st.c['executions_pint_mode'] = st.c['executions'] - basic_exec
     space = Product(OPERANDS, OPERANDS, units, BINOPS + CMPOPS, SHAPES)
     s, t = space.tree_size()
     st.c['states'], st.c['transitions'] = s, t
-    if st.c['executions'] + sum(st.skips.values()) * len(SHAPES) < space.leaves():
-        raise HarnessError('enumeration incomplete: %d < %d' % (st.c['executions'], space.leaves()))
+    if basic_exec + sum(st.skips.values()) * len(SHAPES) < space.leaves():
+        raise HarnessError('enumeration incomplete: %d < %d' % (basic_exec, space.leaves()))
+    if pint_units and st.c['executions_pint_mode'] < 0.8 * basic_exec * len(pint_units) / len(units):
+        raise HarnessError('Pint-mode enumeration incomplete: %d' % st.c['executions_pint_mode'])
     return {'stats': st, 'exhaustive': True,
             'rule': 'complete product: 19 operands^2 x units x (13 arithmetic/bitwise + 6 comparison operators) x 6 operand shapes (+ one Quantity object on both sides, on the diagonal; + a pickled / deep-copied / unit-assigned-later operand for comparisons and + -), '
-                    '+ 3-argument pow with Quantity base, + 7 unary operators/conversions; distinct = distinct '
+                    '+ 3-argument pow with Quantity base, + 7 unary operators/conversions; the whole space a second time with hszinc switched to its Pint-backed Quantity class (units Pint knows, bool magnitudes excluded: Pint refuses them); distinct = distinct '
                     '(operator, a, b, shape, unit); every case is non-trivial (it evaluates an operator on a real Quantity)',
             'coverage': {'bounds': {'operands': len(OPERANDS), 'units': units, 'binary_ops': len(BINOPS), 'cmp_ops': len(CMPOPS),
-                                    'shapes': SHAPES, 'unary': len(UNOPS)}},
+                                    'shapes': SHAPES, 'late_shapes': LATE_SHAPES, 'unary': len(UNOPS), 'pint_mode_units': pint_units,
+                                    'executions_pint_mode': st.c.get('executions_pint_mode', 0)}},
             'assumptions': ['oracle = the same Python expression on the bare values in the same interpreter',
                             'int ** int with exponent > 64 and int << int > 4096 skipped (bare expression does not terminate)']}
 
 
 def replay(case, st):
     import hszinc as hs
+    global _PINT
+    if case.get('pint'):
+        hs.use_pint(True)
+        _PINT = True
+        try:
+            _replay(hs, case, st)
+        finally:
+            _PINT = False
+            hs.use_pint(False)
+    else:
+        _replay(hs, case, st)
+
+
+def _replay(hs, case, st):
     vals = {repr(o): o for o in OPERANDS}
     if case['kind'] == 'bin':
         ops = dict(BINOPS + CMPOPS)
@@ -244,6 +333,6 @@ def replay(case, st):
         if not same_outcome(exp, got):
             st.fail('quantity-not-transparent', {'op': case['op'], 'shape': case['shape']}, case, {'expected': repr(exp), 'observed': repr(got)})
     elif case['kind'] == 'un':
-        unary([case['unit']], st)
+        _unary(hs, [case['unit']], st)
     else:
-        st.merge(task([(vals[case['a']], vals[case['b']])], [case['unit']]))
+        st.merge(_task([(vals[case['a']], vals[case['b']])], [case['unit']], _PINT))
